@@ -83,10 +83,15 @@ func execute(d *dev) (run *hist.Run, blocks int, applied int) {
 	blocksWithRecovered = 0
 	seen := 0
 	first := -1
+	// a recovered panic in the block in which a hostile value was delivered (or the one after) is the
+	// one-off rejection of that value; only panics in other blocks count towards "again and again"
+	hostileBlock := map[int]bool{}
 	h := hist.Hooks{OnBlock: func(i int, height int64, resp *abci.ResponseFinalizeBlock) {
 		if n := len(recoveredHits()); n > seen {
 			seen = n
-			blocksWithRecovered++
+			if !hostileBlock[i] && !hostileBlock[i-1] {
+				blocksWithRecovered++
+			}
 		}
 	}}
 	if d != nil && d.Gov == "fast-forward" {
@@ -118,6 +123,7 @@ func execute(d *dev) (run *hist.Run, blocks int, applied int) {
 					if mutate(reflect.ValueOf(c), strings.Split(d.Field, "/"), d.Value) {
 						txs[ti].Msgs[mi] = c
 						first = i
+						hostileBlock[i] = true
 						applied++
 					}
 				}
@@ -415,7 +421,7 @@ func hostile(kind string, thorough bool) []string {
 		}
 		return []string{"-1", "1e30", "2^240"}
 	case "list":
-		return []string{"empty", "300x"}
+		return []string{"empty", "dup", "300x"}
 	case "Any":
 		return []string{"nil", "wrongtype", "garbage"}
 	case "bool":
@@ -594,6 +600,17 @@ func mutate(v reflect.Value, path []string, val string) (ok bool) {
 		switch val {
 		case "empty":
 			v.Set(reflect.MakeSlice(t, 0, 0))
+		case "dup":
+			// the list with its first element listed twice
+			if v.Len() == 0 {
+				return false
+			}
+			n := reflect.MakeSlice(t, v.Len()+1, v.Len()+1)
+			n.Index(0).Set(v.Index(0))
+			for i := 0; i < v.Len(); i++ {
+				n.Index(i + 1).Set(v.Index(i))
+			}
+			v.Set(n)
 		default:
 			if v.Len() == 0 {
 				return false
